@@ -587,6 +587,11 @@ func (l *IPFSLog) Join(otherLog iface.IPFSLog, size int) (iface.IPFSLog, error) 
 		if _, ok := l.Next.Get(e.GetHash().String()); ok {
 			mergedHeads[idx] = nil
 		}
+
+		// only entries of the log can be its heads
+		if _, ok := l.Entries.Get(e.GetHash().String()); !ok {
+			mergedHeads[idx] = nil
+		}
 	}
 
 	l.heads = entry.NewOrderedMapFromEntries(mergedHeads)
